@@ -140,8 +140,10 @@ PROPS["C09"] = dict(
          "parenthesised expressions, calls of two functions with 0-2 arguments, redundant parentheses, printed with exactly the "
          "parentheses precedence/associativity demand and random whitespace, evaluated by an eval.Evaluator with SYMBOLIC operators so "
          "that the returned value is the parse tree, compared with the conventional tree; (30%) arbitrary strings of length 0-13 over an "
-         "operator-heavy alphabet through the same symbolic evaluator; (20%) numeric ASTs on the real fixed (D4) and float64 evaluators "
-         "against a reference evaluation of the AST with the library's own operator functions, two layouts, reused vs fresh evaluator, "
+         "operator-heavy alphabet through the same symbolic evaluator; (20%) numeric ASTs on the real fixed (D4) and float64 evaluators, "
+         "with calls of all fourteen standard functions (abs max min floor ceil round sqrt cbrt exp exp2 log log10 log1p if; negative and "
+         "half-way arguments for the rounding ones, if() evaluating only the chosen branch), "
+         "against a reference evaluation of the AST with the library's own operator functions and an independently written meaning of each function, two layouts, reused vs fresh evaluator, "
          "both divide-by-zero modes; (10%) arbitrary byte strings on the real evaluators under recover. non-trivial = printed AST or value "
          "case; distinct = distinct case text",
     trivial_class=r"(junk|rob|^bad$|^exn$)",
